@@ -752,8 +752,10 @@ class CorrelatedFieldMaker:
             a[ii] = co.adjoint @ pd @ a[ii]
         corr = reduce(mul, a)
         xi = Variable(hspace, self._prefix + 'xi')
-        if np.isscalar(self.azm):
+        if np.isscalar(self.azm) and self.azm in (0, 1):
             op = ht(corr.real * xi)
+        elif np.isscalar(self.azm):
+            op = ht((self.azm * corr).real * xi)
         else:
             expander = ContractionOperator(hspace, spaces=spaces).adjoint
             azm = expander @ self.azm
